@@ -21,6 +21,8 @@ template <class T> typename std::enable_if<std::is_integral<T>::value && !std::i
     const U v[7] = {U(0), U(1), mx, U(mx - 1), U(mx / 2 + 1), U(mx / 3), U(mx / 3 * 2)};   // 0,1,ff,fe,80,55,aa
     return (T)v[k % 7];
 }
+template <class T> typename std::enable_if<std::is_floating_point<T>::value, int>::type n_(T*, rank<8>) { return 4; }
+template <class T> typename std::enable_if<std::is_floating_point<T>::value, T>::type get_(T*, int k, rank<8>) { static const float v[4] = {1.0f, 5.5f, 11.0f, 54.0f}; return (T)v[k % 4]; }
 template <class T> typename std::enable_if<std::is_enum<T>::value, int>::type n_(T*, rank<8>) { return 4; }
 template <class T> typename std::enable_if<std::is_enum<T>::value, T>::type get_(T*, int k, rank<8>) { return static_cast<T>(k % 4); }
 template <size_t n> int n_(Tins::small_uint<n>*, rank<9>) { return n == 1 ? 2 : 5; }
